@@ -267,7 +267,10 @@ def pair_case(tier, cfg, t, entry, I, J, ext, out_order=None, cost=0.16):
     ct = CTYPE[t]
     eA = [ext[x] for x in I]; eB = [ext[x] for x in J]
     free = free_labels([I, J])
+    entry, _, arg = entry.partition(":")          # "einsum:te" = tensor x expression operands, ":et", ":ee"
     E = {"einsum": E_EINSUM, "contraction": E_CONTRACTION, "explicit": E_EXPLICIT}[entry]
+    if arg:
+        E = {"einsum": 5, "contraction": 8}[entry] + {"te": 0, "et": 1, "ee": 2}[arg]
     outl = list(out_order) if out_order is not None else free
     exp = _tens(ct, [ext[x] for x in outl])
     route, cls, st = route_of("einsum" if entry == "explicit" else entry, t, I, J, eB, cfg)
@@ -277,8 +280,11 @@ def pair_case(tier, cfg, t, entry, I, J, ext, out_order=None, cost=0.16):
     ident = f"C03/{entry}[{t}|I={','.join(map(str, I))};J={','.join(map(str, J))}|A={','.join(map(str, eA))};B={','.join(map(str, eB))}"
     if entry == "explicit":
         ident += "|O=" + ",".join(map(str, outl))
+    if arg:
+        ident += "|arg=" + arg
+        route = "exprarg." + arg + "." + route
     ident += "]"
-    pred = [cls, st] if entry == "einsum" else []
+    pred = [cls, st] if entry == "einsum" and not arg else []
     body = spec_text([I, J], [eA, eB], outl, len(outl), basis_cap(tier), pred, route) + \
         f" c03::pair<{ct},{E},{_idx('Index', I)},{_idx('Index', J)},{O},{_tens(ct, eA)},{_tens(ct, eB)},{exp}>(fx,s);"
     return Case(ident, body, cost=cost + (0.12 if entry == "explicit" and outl != free else 0), meta={"route": route})
@@ -467,6 +473,9 @@ def _pairwise(tier, cfg):
                 plan += [("f64", "einsum", "c", "W")]
             if rs <= 6:
                 plan += [("f32", "einsum", "c", "W"), ("i32", "einsum", "c", "D"), ("f64", "einsum", "d", "D")]
+        if _is_base(cfg) and cfg.isa in MAIN3 and cls != -1 and rs <= (4 if tier == "quick" else 5):
+            # unevaluated operands: the AbstractTensor overloads evaluate and forward
+            plan += [("f64", e + ":" + a, "c", "D") for e in ("einsum", "contraction") for a in ("te", "et", "ee")]
         if cls == -1:
             # the classifier's out-of-bounds compile error does not depend on extents, types or numbering (~3 s of compile-failure
             # attribution per rejected case): one einsum case per pattern, all patterns on S2 (and on every quick build), small ones elsewhere
@@ -600,7 +609,7 @@ def bounds(tier):
                 "canonical, D descending, contraction x D (x W where contraction<> takes another route than einsum<>); f32: W,(W2); i32: D; f64 and i32 W3 (last extent = three 128-bit vectors) where the last label is free and the rank sum <=5; "
                 "single-tensor einsum/contraction: all 43 patterns up to rank 5 (f64 D,O + descending, f32/i32 D); inner: 23 shapes, outer: 24 shape "
                 "pairs per type (incl. extent-1 operands); explicit OIndex (A2 C++17): rank sums <=4 all permutations of the free labels, rank sum 5 "
-                "with <=2 free labels, single-tensor all permutations; configurations S2, A2, A5 (C++14) + A2 (C++17) + A2 (C++17, CONTRACT_OPT=-1: contraction<> and nest einsum<> for rank sums <=5). " + common)
+                "with <=2 free labels, single-tensor all permutations; unevaluated operands (tensor/expression combinations) for einsum<> and contraction<> on rank sums <=4; configurations S2, A2, A5 (C++14) + A2 (C++17) + A2 (C++17, CONTRACT_OPT=-1: contraction<> and nest einsum<> for rank sums <=5). " + common)
     return ("all 1600 patterns for ranks r0,r1<=4. S2/A2/A5 (C++14): f64 einsum D,W,(W2) on all patterns; O, descending, f32 W, i32 D and contraction D "
             "for rank sums <=7 (contraction also for every rank-8 pattern einsum<> re-routes); sparse numbering, i64 W, complex<double> D for rank sums "
             "<=6; complex<float>, i64 contraction for rank sums <=4. S0: f64 D all, W for rank sums <=7, f32/i32/descending <=6; A1: f64 D,W + f32 W "
@@ -608,7 +617,7 @@ def bounds(tier):
             "contraction) + explicit OIndex for rank sums <=5 with all permutations of the free labels (f32 and descending for rank sums <=4). A2 with "
             "CONTRACT_OPT=-1 and =1 (odometer / index-arithmetic nests inside extractor_contract_2): contraction<> on every pattern that is not an "
             "outer product (f64 D; W for rank sums<=7; W2, f32 where the last label is free) and einsum<> on nest patterns of rank sums <=6; "
-            "W3 (last extent = three 128-bit vectors) for f64,f32,i32,i64,complex<double> where the last label is free, rank sums <=6, on S2/A2/A5. CONTRACT_OPT=2: rank sums <=5 (the macro does not reach these entry points). A2 C++17 with CONTRACT_OPT=-1 and =1 (constexpr spelling of the odometer arithmetic): rank sums <=6. A2 + FASTOR_DONT_VECTORISE: f64 D all, W + f32 W <=6. "
+            "Unevaluated operands (te/et/ee) for einsum<> and contraction<> on rank sums <=5 (S2/A2/A5). W3 (last extent = three 128-bit vectors) for f64,f32,i32,i64,complex<double> where the last label is free, rank sums <=6, on S2/A2/A5. CONTRACT_OPT=2: rank sums <=5 (the macro does not reach these entry points). A2 C++17 with CONTRACT_OPT=-1 and =1 (constexpr spelling of the odometer arithmetic): rank sums <=6. A2 + FASTOR_DONT_VECTORISE: f64 D all, W + f32 W <=6. "
             "inner/outer: all N<=4W+1 vectors, unit-extent operands; i64 and complex<double> on S2/A2/A5. " + common)
 
 
